@@ -175,6 +175,10 @@ func (p *Prog) ipathsD(f *ssa.Function, depth int, stack map[*ssa.Function]bool)
 								for _, sp := range sub {
 									n := ipath{Rels: c0.Rels.clone(), Vol: c0.Vol.clone(), Events: append([]ievent{}, c0.Events...), Trace: c0.Trace, Root: c0.Root}
 									for k := range sp.Rels {
+										if strings.HasPrefix(k, "\x00keep:") {
+											n.Rels["\x00keep:"+renormRel(keySubst(strings.TrimPrefix(k, "\x00keep:"), psub))] = true
+											continue
+										}
 										nk := renormRel(keySubst(k, psub))
 										n.Rels[nk] = true
 										if sp.Vol[k] {
@@ -200,9 +204,16 @@ func (p *Prog) ipathsD(f *ssa.Function, depth int, stack map[*ssa.Function]bool)
 									bs := [][2]string{}
 									if len(sp.Ret) == 1 {
 										bs = append(bs, [2]string{ck, keySubst(sp.Ret[0], psub)})
+										if isLiteralKey(sp.Ret[0]) {
+											// keep the summary-level fact about the call itself (isLockRef(t) == false)
+											n.Rels["\x00keep:"+eqRel(ck, sp.Ret[0])] = true
+										}
 									} else {
 										for i, rk := range sp.Ret {
 											bs = append(bs, [2]string{shortKey(ck + "#" + itoa(i)), keySubst(rk, psub)})
+											if isLiteralKey(rk) {
+												n.Rels["\x00keep:"+eqRel(shortKey(ck+"#"+itoa(i)), rk)] = true
+											}
 										}
 									}
 									n.Trace += " ⟶ " + sp.Trace
@@ -275,8 +286,15 @@ func (p *Prog) ipathsD(f *ssa.Function, depth int, stack map[*ssa.Function]bool)
 			delete(c.Rels, "\x00bind")
 			rels, vol := relSet{}, relSet{}
 			for k := range c.Rels {
+				if strings.HasPrefix(k, "\x00keep:") {
+					rels[strings.TrimPrefix(k, "\x00keep:")] = true
+					continue
+				}
 				nk := renormRel(replaceAllKeys(k, bs))
 				rels[nk] = true
+				if nk != k {
+					rels[k] = true // the fact about the helper call itself stays available (isLockRef(t) == false)
+				}
 				if c.Vol[k] {
 					vol[nk] = true
 				}
@@ -284,6 +302,9 @@ func (p *Prog) ipathsD(f *ssa.Function, depth int, stack map[*ssa.Function]bool)
 			for _, k := range factRels {
 				nk := renormRel(replaceAllKeys(k, bs))
 				rels[nk] = true
+				if nk != k {
+					rels[k] = true
+				}
 				if factVol[k] {
 					vol[nk] = true
 				}
